@@ -128,6 +128,11 @@ type _refHolder struct {
 	// list referred to from a typed field), converted once per type and shared
 	// by all the references of that type
 	converted map[reflect.Type]reflect.Value
+
+	// conv: the decoder's memo of converted generic maps (elements that are
+	// references to one generic map share one conversion per type, whichever
+	// list they sit in)
+	conv map[_mapConversion]reflect.Value
 }
 
 var _refHolderType = reflect.TypeOf(_refHolder{})
@@ -149,7 +154,7 @@ func (h *_refHolder) valueAs(typ reflect.Type) (reflect.Value, error) {
 	if cv, ok := h.converted[typ]; ok {
 		return cv, nil
 	}
-	cv, err := ConvertSliceValueType(typ, h.value)
+	cv, err := convertSliceValueType(typ, h.value, h.conv)
 	if err != nil {
 		return cv, err
 	}
@@ -186,8 +191,12 @@ func (d *Decoder) addDecoderRef(v reflect.Value) *_refHolder {
 	var holder *_refHolder
 	// only slice and array need ref holder , for its address changes when decoding
 	if v.Kind() == reflect.Slice || v.Kind() == reflect.Array {
+		if d.mapConv == nil {
+			d.mapConv = make(map[_mapConversion]reflect.Value)
+		}
 		holder = &_refHolder{
 			value: v,
+			conv:  d.mapConv,
 		}
 		v = reflect.ValueOf(holder)
 	}
